@@ -237,6 +237,12 @@ def run(tier: str) -> int:
                       f"{opname} with sharing {r['share']}, read-only mask {r['ro']}, callback mode {r['cb']}: {verdict}; "
                       f"changed buffers {r['changed']}, exception {r['exc']!r}",
                       {"op": opname, **r})
+    if tier == "thorough":
+        # every public call made by the faster half of the repository's tests, with byte-wise snapshots
+        from .. import record
+        fast = ["test_grid", "test_becke", "test_cubic", "test_utils", "test_coulomb", "test_ngrid", "test_periodicgrid",
+                "test_transform", "test_rtransform", "test_onedgrid", "test_radial", "test_ode", "test_molgrid"]
+        record.judge_suite(rep, wd, "frame", [f"src/grid/tests/{t}.py" for t in fast], "frame")
     rep.set("traces_validated_against_impl", len(obs))
     rep.set("operations", len(ops))
     rep.set("exhaustive", tier == "thorough")
